@@ -43,6 +43,60 @@ def handle (args : List String) : String :=
       let some l := parseFloats? ev | return "bad-op"
       if l.length ≠ 4 then return "bad-op"
       return fbits (woottersReadout l)
+  | ["sqrtrho", n, rank, evl, evc] => Id.run do
+      -- evc: N·N entries, re and im bits interleaved (2·N·N floats); output: N·rank entries `reBits,imBits`
+      let some n := n.toNat? | return "bad-op"
+      let some rank := rank.toNat? | return "bad-op"
+      let some l := parseFloats? evl | return "bad-op"
+      let some v := parseFloats? evc | return "bad-op"
+      if n = 0 || rank = 0 || rank > n || l.length ≠ n || v.length ≠ 2 * n * n then return "bad-op"
+      let va := v.toArray
+      let ent := fun (k j part : Nat) => sqrtRhoEntry l n rank j (va.getD (2 * (k * n + (n - rank + j)) + part) 0)
+      return ";".intercalate ((List.range n).flatMap fun k => (List.range rank).map fun j => fbits (ent k j 0) ++ "," ++ fbits (ent k j 1))
+  | ["cpnorm", dims, num, cp, coeff, psis] => Id.run do
+      let some dims := parseNatList? dims | return "bad-op"
+      let some num := num.toNat? | return "bad-op"
+      let some cp := cp.toNat? | return "bad-op"
+      let some co := parseGIntList? coeff | return "bad-op"
+      let some ps := (psis.splitOn "|").mapM parseGIntList? | return "bad-op"
+      if dims.length < 2 || dims.any (· < 2) || cp = 0 || co.length ≠ num * cp || ps.length ≠ dims.length then return "bad-op"
+      if (List.range dims.length).any (fun i => (ps.getD i []).length ≠ num * cp * dims.getD i 0) then return "bad-op"
+      let ca := co.toArray
+      let pa := (ps.map fun l => l.toArray).toArray
+      let psi : Nat → Nat → GInt := fun i k => (pa.getD i #[]).getD k 0
+      let psic : Nat → Nat → GInt := fun i k => conj ((pa.getD i #[]).getD k 0)
+      return gintListStr ((List.range num).map fun al => cpNormSq dims cp (fun t => ca.getD t 0) psi psic al)
+  | ["gmeovcp", dims, num, rank, cp, sq, xs, coeff, psis] => Id.run do
+      let some dims := parseNatList? dims | return "bad-op"
+      let some num := num.toNat? | return "bad-op"
+      let some rank := rank.toNat? | return "bad-op"
+      let some cp := cp.toNat? | return "bad-op"
+      let some s := parseQIBitsList? sq | return "bad-op"
+      let some x := parseGIntList? xs | return "bad-op"
+      let some co := parseGIntList? coeff | return "bad-op"
+      let some ps := (psis.splitOn "|").mapM parseGIntList? | return "bad-op"
+      if dims.length < 2 || dims.any (· < 2) || cp = 0 || s.length ≠ prodL dims * rank || x.length ≠ num * rank
+          || co.length ≠ num * cp || ps.length ≠ dims.length then return "bad-op"
+      if (List.range dims.length).any (fun i => (ps.getD i []).length ≠ num * cp * dims.getD i 0) then return "bad-op"
+      let sa := s.toArray
+      let xa := (x.map QI.ofGInt).toArray
+      let ca := (co.map QI.ofGInt).toArray
+      let pa := (ps.map fun l => (l.map QI.ofGInt).toArray).toArray
+      let psi : Nat → Nat → QI := fun i k => getQ (pa.getD i #[]) k
+      return qiListStr ((List.range num).map fun al => gmeOverlapCP dims rank cp (getQ sa) (getQ xa) (getQ ca) psi al)
+  | ["negread", ev] => Id.run do
+      let some l := parseFloats? ev | return "bad-op"
+      if l.length = 0 then return "bad-op"
+      return fbits (negativityReadout l)
+  | ["eofspec", ev] => Id.run do
+      -- the composition get_eof_2qubit ∘ get_concurrence_2qubit on a prescribed `eigvalsh` spectrum
+      let some l := parseFloats? ev | return "bad-op"
+      if l.length ≠ 4 then return "bad-op"
+      return fbits (eof2qubit (woottersReadout l))
+  | ["gmespec", ev] => Id.run do
+      let some l := parseFloats? ev | return "bad-op"
+      if l.length ≠ 4 then return "bad-op"
+      return fbits (gme2qubit (woottersReadout l))
   | ["eofpure", eps, ev] => Id.run do
       let some e := parseFloats? eps | return "bad-op"
       let some l := parseFloats? ev | return "bad-op"
